@@ -715,6 +715,20 @@ class Exprs:
             if isinstance(a, VList) and isinstance(b, VList):
                 if a.is_concrete() and b.is_concrete():
                     return VList(a.tail + b.tail)
+                if a.is_concrete() and not b.tail and len(a.tail) <= 4:
+                    # [x, ...] + symbolic: a symbolic list whose first elements are the concrete ones
+                    k = len(a.tail)
+                    head, bb = list(a.tail), b
+
+                    def get(idx: Any, head: Any = head, bb: Any = bb, k: int = k) -> V:
+                        idc = z3.simplify(idx)
+                        if z3.is_int_value(idc) and idc.as_long() < k:
+                            return head[idc.as_long()]
+                        for j in range(k):
+                            if self.path.branch(idx == j):
+                                return head[j]
+                        return bb.base_get(idx - k)
+                    return VList([], base_len=b.base_len + k, base_get=get)
                 raise Unsupported("+ on symbolic lists")
             if isinstance(a, VTuple) and isinstance(b, VTuple):
                 return VTuple(a.items + b.items)
@@ -967,6 +981,8 @@ class Exprs:
                 self.ob(z3.Not(got.isnone), "key-error", node, fr, "key is present")
                 return got.val
             if isinstance(got, VNoneT):
+                if fr.in_spec:
+                    return VOpaque("undefined.key")  # a guarded spec reads a key that is absent on this path
                 self.ob(z3.BoolVal(False), "key-error", node, fr, "key is present")
                 raise PathEnd("KeyError")
             return got
